@@ -140,7 +140,7 @@ class C04(PoolScenario):
         r2 = call(hg.Factory.fromJson, json.loads(text))
         if r2.ok:
             e = call(lambda: rep == r2.value)
-            if e.ok and e.value is not True:
+            if e.ok and not bool(e.value):
                 raise self.violation(obj.name, "fromJson", "eq-false-on-equal:%s" % wire,
                                      "two reloads of one document do not compare equal (%r)" % (e.value,), si, {"doc": ndoc})
         w.bump("fault_restore")
